@@ -101,6 +101,23 @@ RICH = [
         {"type": "begin repeat", "name": "vr", "label": "VR", "read_only": "no", "required": "true()"},
         {"type": "text", "name": "vi", "label": "VI"},
         {"type": "end repeat"}]},
+    # truth values on a row of every kind of question (whatever a type does with a required / read-only row must not depend on the spelling)
+    {"survey": [
+        {"type": "note", "name": "tn", "label": "TN", "required": "yes"},
+        {"type": "note", "name": "tn2", "label": "TN2", "required": "true()", "read_only": "no"},
+        {"type": "integer", "name": "ti", "label": "TI", "required": "yes", "read_only": "yes"},
+        {"type": "select_multiple c", "name": "tm", "label": "TM", "required": "no"},
+        {"type": "calculate", "name": "tc", "calculation": "1 + 1", "required": "yes", "read_only": "true()"},
+        {"type": "image", "name": "tp", "label": "TP", "required": "yes", "parameters": "max-pixels=100"},
+        {"type": "geopoint", "name": "tg", "label": "TG", "required": "true()"},
+        {"type": "acknowledge", "name": "ta", "label": "TA", "required": "yes"},
+        {"type": "date", "name": "td", "label": "TD", "read_only": "yes"},
+        {"type": "range", "name": "tr", "label": "TR", "required": "no", "read_only": "no"},
+        {"type": "hidden", "name": "th", "required": "yes"},
+        {"type": "rank c", "name": "tk", "label": "TK", "required": "yes"},
+        {"type": "barcode", "name": "tb", "label": "TB", "required": "no", "read_only": "yes"},
+        {"type": "file", "name": "tf", "label": "TF", "required": "yes"}],
+     "choices": [{"list_name": "c", "name": "x", "label": "X"}, {"list_name": "c", "name": "y", "label": "Y"}]},
 ]
 
 # ---------------------------------------------------------------- transformations ----
